@@ -92,6 +92,14 @@ def gen_scenario(rng, tier, eager_input=False):
             sc.ops.append(("send_commands", [rng.choice(cmds) for _ in range(rng.randint(1, 3))], rng.random() < 0.7))
         else:
             sc.ops.append(gen_interactive(rng, sc))
+    if rng.random() < 0.1:
+        # the interactive session ends on an interaction_complete_pattern instead of the expected response: the remaining
+        # inputs must not be sent (last operation of the scenario: the device is left at its question)
+        q, qtexts, expects = rng.choice(DIALOGS)
+        sc.questions[q] = list(qtexts) if len(qtexts) > 1 else qtexts[0]
+        sc.outputs.setdefault(q, "done")
+        sc.ops.append(("send_interactive", [(q, "RESPONSE-THAT-NEVER-COMES", False), ("SHOULD-NOT-BE-SENT", "", rng.random() < 0.5)],
+                       [rng.choice(["NEVER-SEEN-TEXT", "^never\\d+$"]), expects[0]], None, "early"))
     if small:
         k = rng.random()
         sc.cuts = [1] * 20000 if k < 0.5 else [rng.choice([2, 3, 7])] * 20000 if k < 0.7 else [rng.choice([1, 1, 2, 3, 5, 8]) for _ in range(6000)]
@@ -191,6 +199,18 @@ def oracle(sc, res):
                 problems.append("send_commands returned wrong number of responses")
             for cmd, g in zip(op[1], got):
                 problems += check_single(dev, cmd, op[2], g, trailing)
+        elif op[0] == "send_interactive" and len(op) > 4 and op[4] == "early":
+            result, raw, _f, _ci = got
+            q = op[1][0][0]
+            qs = sc.questions[q]
+            q0 = (qs if isinstance(qs, list) else [qs])[0]
+            want = _text(normalize(q.encode() + b"\n" + q0.encode()))
+            shown = result.replace("\x08", "") if sc.echo_junk else result
+            if shown.lstrip(" \t") != want:
+                problems.append(f"interactive session ended by a complete pattern: result {result[:100]!r} != {want[:100]!r}")
+            if b"SHOULD-NOT-BE-SENT" in b"".join(res.writes):
+                problems.append("an input was sent after the interaction complete pattern had been seen")
+            return problems      # the device is left at its question: nothing more to check
         elif op[0] == "send_interactive":
             result, raw, _f, _ci = got
             q = op[1][0][0]
